@@ -388,6 +388,20 @@ def ft1(F, R):
                     R.require(not bare, fn, n.split("::")[-1] + ":index", "mutable cache access at a constant / partition-start block (%s): MBR or boot sector would be written" % tstr(idx), fn.loc(b))
             if call_matches(t, ("BlockCache::write_back_with_duplicate",)):
                 R.require(fn.npath == FATVOL + "::update_fat", fn, "dup-writer", "write_back_with_duplicate used outside update_fat", fn.loc(b))
+    # the second FAT is a write-only mirror: its position is used by update_fat (the duplicate write) and set by parse_volume,
+    # and by nothing else - a chain walk that reads links from the copy follows whatever an earlier, unmirrored state of the
+    # table says and ends up in other files' clusters
+    import json as _json
+    users = 0
+    for fn in F.fns:
+        if "::tests" in fn.npath or '"second_fat_start"' not in _json.dumps([fn.blocks[b] for b in fn.live_blocks()]):
+            continue
+        owner = fn.npath if fn.kind != "Closure" else fn.npath.rsplit("::{closure", 1)[0]
+        if owner.startswith("<"):      # derived Debug / PartialEq / Clone of the geometry record
+            continue
+        users += 1
+        R.require(owner in (FATVOL + "::update_fat", "fat::volume::parse_volume"), fn, "second-fat-write-only", "%s uses second_fat_start: the FAT copy is only ever written (by update_fat, next to the first FAT), never read or addressed elsewhere" % owner.split("::")[-1], fn.loc(0))
+    R.require(users >= 1, None, "second-fat-users", "expected update_fat to address the second FAT")
 
 
 @rule("FT2", ["C03", "C04", "C16"], floor=6,
